@@ -294,6 +294,63 @@ def r12_6(chk, facts):
                  'precedence levels %s are not strictly ordered or > and > equality > relational > additive > multiplicative (a lower level binds tighter)' % dict(zip(['/'.join(t) for t in JP_PREC_ORDER], levels)), None)
     else: chk.ok('R12.6', 'include/jsoncons_ext/jsonpath/token_evaluator.hpp precedence order', {'levels': clean})
 
+def guarded_effects(fn):
+    """{(sorted guard texts with outcome, statement text)} for every return / assignment / declaration of a small pure function."""
+    g = C.CFG(fn['body'])
+    out = set()
+    for nd in g.rpo:
+        if nd.kind not in ('stmt', 'return') or not isinstance(nd.ast, dict): continue
+        gs = tuple(sorted('%s%s' % ('' if lab else '!', A.text(a)) for a, lab, e in g.guards(nd) if lab in (True, False)))
+        if nd.kind == 'return': out.add((gs, 'return ' + A.text(nd.ast.get('val'))))
+        else: out.add((gs, A.text(nd.ast)))
+    return out
+
+def r12_8(chk, tier):
+    """Sibling agreement: the JSONPath and the JMESPath slice structs normalise start/stop identically."""
+    chk.rule('R12.8', 'slice bounds siblings: slice::get_start, get_stop and step of jsonpath and of jmespath have the same guarded effects (same '
+                      'returns and assignments under the same conditions); both implement the same Python-style bound normalisation', floor=3)
+    fj = F.load(['jsonpath'], tier); fm = F.load(['jmespath'], tier)
+    for u in ('jsonpath', 'jmespath'):
+        if u not in chk.units: chk.units.append(u)
+    def pick(facts, name, hdr):
+        fns = [f for f in facts.functions if f['n'] == name and f['file'].endswith(hdr) and A.strip_targs(f.get('cls') or '').endswith('::slice') and f.get('body') is not None and not f.get('dep')]
+        return fns[0] if fns else None
+    for name in ('get_start', 'get_stop', 'step'):
+        a = pick(fj, name, 'jsonpath_selector.hpp'); b = pick(fm, name, 'jmespath.hpp')
+        chk.require(a is not None and b is not None, 'R12.8: slice::%s not found in one of the two libraries' % name)
+        chk.analysed(a); chk.analysed(b)
+        ea, eb = guarded_effects(a), guarded_effects(b)
+        site = 'include/jsoncons_ext slice::%s jsonpath vs jmespath' % name
+        if ea == eb: chk.ok('R12.8', site, {'effects': len(ea)})
+        else:
+            da = sorted(ea - eb); db = sorted(eb - ea)
+            def show(x): return '%s%s' % (x[1][:60], (' under ' + ' & '.join(x[0])) if x[0] else '')
+            chk.fail('R12.8', site, (b if db else a)['file'], (b if db else a)['l'], 'slice::%s differs between the two libraries: only jsonpath: [%s]; only jmespath: [%s]' % (
+                name, '; '.join(show(x) for x in da[:3]), '; '.join(show(x) for x in db[:3])), {'only_jsonpath': [show(x) for x in da], 'only_jmespath': [show(x) for x in db]}, a['q'])
+
+def r12_7(chk, facts):
+    chk.rule('R12.7', 'selector identities: every selector constructed with the running id consumes it (`selector_id++`), so two selectors of one '
+                      'expression never share the slot that caches their value', floor=2)
+    n = 0; seen = set()
+    for fn in facts.functions:
+        if fn.get('dep') or fn.get('body') is None or not fn['file'].endswith('jsonpath_parser.hpp') or (fn['file'], fn['l']) in seen: continue
+        ids = [x for x in A.walk_no_lambda(fn['body']) if x.get('k') == 'VarDecl' and x.get('n') == 'selector_id']
+        if not ids: continue
+        seen.add((fn['file'], fn['l']))
+        chk.analysed(fn)
+        vid = ids[0]['id']
+        from . import c05
+        pm = c05.parent_map(fn['body'])
+        for x in A.walk_no_lambda(fn['body']):
+            if x.get('k') == 'DeclRefExpr' and x.get('id') == vid:
+                par = pm.get(id(x))
+                while par is not None and par.get('k') in ('ImplicitCastExpr', 'ParenExpr'): par = pm.get(id(par))
+                n += 1
+                site = U.site(fn, 'selector_id use#%d' % n)
+                if par is not None and par.get('k') == 'UnaryOperator' and par.get('op') == '++': chk.ok('R12.7', site, {'line': x.get('l')})
+                else: chk.fail('R12.7', site, fn['file'], x.get('l'), 'compile: a selector is constructed with `selector_id` without incrementing it: the next selector gets the same id and reads the other\'s cached value', None, fn['q'])
+    chk.require(n >= 2, 'R12.7: only %d uses of selector_id found' % n)
+
 def run(chk, tier, only_rule=None):
     chk.explanation = EXPLANATION
     chk.not_decided = NOT_DECIDED
@@ -390,6 +447,8 @@ def run(chk, tier, only_rule=None):
     r12_3(chk, tier)
     r12_4(chk, facts)
     r12_6(chk, facts)
+    r12_7(chk, facts)
+    r12_8(chk, tier)
     r12_5(chk, tier)
     c05.r05_6(chk, tier, units=['jsonpath'], floor=80)
     c05.r05_7(chk, tier, units=['jsonpath'], floor=100)
